@@ -441,9 +441,16 @@ impl Sim {
         } else {
             self.idle_streak = 0;
         }
+        // what the loop held for later when it parked (hook `publish_loop`): the timer heap (count, the earliest 40) and
+        // the queued re-runs; only meaningful while the daemon is parked at its gate
+        let (timers, reruns) = self.world.loop_state(self.daemons[i].d);
+        let parked_ok = alive && matches!(parked, Parked::AtGate { .. });
+        let tm: Vec<i64> = timers.iter().take(40).map(|t| *t as i64 - T0 as i64).collect();
+        let rr: Vec<Value> = reruns.iter().map(|(t, k, key)| json!({"t": *t as i64 - T0 as i64, "k": k, "key": key, "keyk": key.to_lowercase()})).collect();
         let line = json!({"e": "iter", "d": i, "startup": startup, "sent": sent, "events": events, "replies": replies,
             "wake": wake, "pend": self.daemons[i].pending_cmds, "alive": alive, "panicked": panicked,
-            "hung": matches!(parked, Parked::Timeout), "win": win, "closed": self.closed_chans(i)});
+            "hung": matches!(parked, Parked::Timeout), "win": win, "closed": self.closed_chans(i),
+            "loop": parked_ok, "ntm": timers.len(), "tm": tm, "rr": rr});
         self.log(line);
         if !alive || self.hung {
             self.log(json!({"e": "dead", "d": i, "panicked": panicked, "hung": self.hung}));
